@@ -327,6 +327,82 @@ def lift_closure(sig, body, lift, where, prov):
     return new_body, lifted_sig, cbody
 
 
+def desugar_folds(body, count, where, prov):
+    """class D: `let N: T = ITER.fold(INIT, |mut ACC, X| { ...; ACC });`  becomes
+       `let N: T = { let mut ACC: T = INIT; for X in ITER { ... } ACC };`   (definition of Iterator::fold)."""
+    done = 0
+    while True:
+        toks = code_tokens(body)
+        k = next((i for i, t in enumerate(toks) if t[1] == "fold" and toks[i - 1][1] == "." and toks[i + 1][1] == "("), None)
+        if k is None:
+            break
+        # enclosing `let NAME: TYPE =`
+        j = k
+        depth = 0
+        while j >= 0:
+            t = toks[j]
+            if t[0] == "punct" and t[1] in ")]}":
+                depth += 1
+            elif t[0] == "punct" and t[1] in "([{":
+                depth -= 1
+            if t[1] == "=" and depth == 0 and not (toks[j + 1][1] in "=>" and toks[j + 1][2] == t[3]) and not (toks[j - 1][1] in "=!<>" and toks[j - 1][3] == t[2]):
+                break
+            j -= 1
+        eq = j
+        l = eq
+        while toks[l][1] != "let":
+            l -= 1
+        colon = next(i for i in range(l, eq) if toks[i][1] == ":")
+        ty = body[toks[colon + 1][2]:toks[eq - 1][3]]
+        iter_txt = body[toks[eq + 1][2]:toks[k - 2][3]]
+        op = k + 1
+        cl = match_close(toks, op)
+        if toks[cl + 1][1] != ";":
+            raise LostAnchor("%s: fold is not the whole let initialiser" % where)
+        # args: INIT , |mut ACC, X| { BODY }
+        a = op + 1
+        c = a
+        while not (toks[c][1] == "," and toks[c][0] == "punct"):
+            if toks[c][0] == "punct" and toks[c][1] in "([{":
+                c = match_close(toks, c)
+            c += 1
+        init = body[toks[a][2]:toks[c - 1][3]]
+        if toks[c + 1][1] != "|" or toks[c + 2][1] != "mut":
+            raise LostAnchor("%s: fold closure is not `|mut ACC, X|`" % where)
+        acc = toks[c + 3][1]
+        if toks[c + 4][1] != "," or toks[c + 6][1] != "|":
+            raise LostAnchor("%s: fold closure parameters not of the form |mut ACC, X|" % where)
+        x = toks[c + 5][1]
+        b0 = c + 7
+        if toks[b0][1] != "{":
+            raise LostAnchor("%s: fold closure body is not a block" % where)
+        b1 = match_close(toks, b0)
+        if b1 + 1 != cl:
+            raise LostAnchor("%s: fold closure is not the last argument" % where)
+        inner_toks = toks[b0 + 1:b1]
+        # tail expression must be ACC
+        if inner_toks[-1][1] != acc or inner_toks[-2][1] not in ("}", ";"):
+            raise LostAnchor("%s: fold closure does not end in `%s`" % (where, acc))
+        inner = body[toks[b0][3]:inner_toks[-1][2]]
+        # side conditions
+        for t in inner_toks:
+            if t[0] == "id" and t[1] in ("break", "continue") or t[1] == "?":
+                raise LostAnchor("%s: fold closure contains %s" % (where, t[1]))
+        n_ret = len(re.findall(r"\breturn\b", strip_comments(inner)))
+        n_ret_acc = len(re.findall(r"\breturn\s+%s\s*;" % re.escape(acc), inner))
+        if n_ret != n_ret_acc:
+            raise LostAnchor("%s: fold closure has a `return` other than `return %s;`" % (where, acc))
+        inner = re.sub(r"\breturn\s+%s\s*;" % re.escape(acc), "continue;", inner)
+        new = "{\n        let mut %s: %s = %s;\n        for %s in %s {%s}\n        %s\n    };" % (acc, ty, init, x, iter_txt, inner, acc)
+        prov.append({"cls": "D", "what": "Iterator::fold desugared to a for loop", "iter": iter_txt.strip(), "acc": acc, "elem": x,
+                     "returns_rewritten_to_continue": n_ret_acc})
+        body = body[:toks[eq + 1][2]] + new + body[toks[cl + 1][3]:]
+        done += 1
+    if done != count:
+        raise LostAnchor("%s: %d fold sites desugared, unit declares %d" % (where, done, count))
+    return body
+
+
 def spec_twin(item, name, sig_override, where, prov):
     """class A (ghost): a spec function whose body is the function's body text, verbatim (self -> x)."""
     body = strip_comments(item.body)
@@ -582,6 +658,8 @@ class Unit:
             body = strip_comments(it.body)
             sig = apply_edits(sig, [e for e in spec.get("edit", []) if e.get("in") == "sig"], where, prov)
             body = apply_edits(body, [e for e in spec.get("edit", []) if e.get("in", "body") == "body"], where, prov)
+            if spec.get("desugar_folds"):
+                body = desugar_folds(body, spec["desugar_folds"], where, prov)
             lifted = None
             if spec.get("lift"):
                 body, lsig, lbody = lift_closure(sig, body, spec["lift"], where, prov)
@@ -596,6 +674,22 @@ class Unit:
                 # class X: visibility has no executable meaning inside the single-file crate
                 prov.append({"cls": "X", "what": "drop visibility `%s`" % m.group(1).strip()})
                 sig = sig[m.end():]
+            if spec.get("contract_only"):
+                # imported contract: proved in its home unit, assumed here (the driver checks that the home unit is part of the same check)
+                cs = dict(spec)
+                cs.pop("loop", None); cs.pop("top", None)
+                if spec.get("lift") and not spec.get("import_enclosing"):
+                    raise LostAnchor("cannot import a lifted closure")
+                chunks = splice_fn(sig, "{ unimplemented!() }", cs, where, prov, False, {})
+                em.emit("#[verifier::external_body]", {"kind": "imported", "what": "contract of %s, proved in unit %s" % (label, spec["contract_only"]), "home": spec["contract_only"], "label": label})
+                for txt, org in chunks:
+                    if org[0] == "canary":
+                        continue
+                    self._emit_partial(em, txt, lambda k, o=org: {"kind": "imported", "what": "contract of %s (unit %s)" % (label, spec["contract_only"]), "fn": label})
+                self._flush(em)
+                self.prov.setdefault("imports", []).append({"home": spec["contract_only"], "label": label})
+                self.prov["items"].pop()
+                return
             self.fn_props[label] = spec.get("props", [])
             body_line0 = it.src.count("\n", 0, it.body_open) + 1
             gi = {}
@@ -728,6 +822,20 @@ class Unit:
             self.include(em, sub["include"], sub.get("kind", "spec"))
         elif "raw" in sub:
             em.emit(sub["raw"], {"kind": "glue"})
+        elif "import_from" in sub:
+            home = tomllib.load(open(os.path.join(VERIF, "contracts", "units", sub["import_from"] + ".toml"), "rb"))
+            def walk(blocks):
+                for b in blocks:
+                    if "find" in b:
+                        yield b
+                    for key in ("item",):
+                        if key in b:
+                            yield from walk(b[key])
+            table = {b["find"]: b for b in walk(home["block"])}
+            for f in sub["finds"]:
+                if f not in table:
+                    raise LostAnchor("import_from %s: no item `%s`" % (sub["import_from"], f))
+                self.emit_item(em, dict(table[f], contract_only=sub["import_from"]))
         elif "generator" in sub:
             import importlib
             importlib.import_module(sub["generator"]).generate(self, em)
